@@ -16,6 +16,7 @@ Check(r) ==
   CASE r.e = "FW"  -> Check_FW(r)
     [] r.e = "FR"  -> Check_FR(r)
     [] r.e = "VEC" -> Check_VEC(r)
+    [] r.e = "FWM" -> Check_FWM(r, Defs[r.d])
     [] r.e = "X25ALL" -> Check_X25ALL(r)
     [] r.e = "X25S" -> Check_X25S(r)
     [] r.e = "TIMED" -> Check_TIMED(r)
